@@ -129,10 +129,7 @@ func nBucket(n int64) string {
 func runShard(c *rig.Ctx, cs Case, m mode) int {
 	var v verdict
 	fail := func(kind, class, what string, impl, model interface{}) {
-		v.note(kind)
-		if m.record {
-			c.Fail(rig.Failure{Kind: kind, Class: class, What: what, Case: cs, Impl: impl, Model: model})
-		}
+		v.note(rig.Failure{Kind: kind, Class: class, What: what, Case: cs, Impl: impl, Model: model})
 	}
 	n := int(cs.N)
 	var mod struct {
@@ -142,11 +139,11 @@ func runShard(c *rig.Ctx, cs Case, m mode) int {
 	}
 	if err := c.Model("C13.shard", map[string]interface{}{"names": cs.Names, "n": cs.N}, &mod); err != nil {
 		fail("diff", "c13.model-error", "model error "+err.Error(), nil, nil)
-		return v.sev
+		return v.flush(c, m)
 	}
 	if len(mod.Shards) != len(cs.Names) {
 		fail("diff", "c13.model-error", "model answered a list of another length", nil, nil)
-		return v.sev
+		return v.flush(c, m)
 	}
 	// the gateway learns the count from RateLimitServerInfo.ShardCount (int32) in clientSets.sync
 	wire := int(int32(n))
@@ -199,5 +196,5 @@ func runShard(c *rig.Ctx, cs Case, m mode) int {
 			fail("diff", "c13.shard-spec", fmt.Sprintf("GetShardID(%q, %d) = %s, fnv32a mod n = %d", name, n, r1, mod.Spec[i]), r1, mod.Spec[i])
 		}
 	}
-	return v.sev
+	return v.flush(c, m)
 }
